@@ -424,8 +424,60 @@ def run(prog: Program) -> Results:
             res.add("R-C18-11", (sp.key, "segments returned without stripping"), sp.loc(rt),
                     f"_split_attrpath: `{norm(rt)[:60]}` returns pieces that did not pass `.strip()`: for `services\\t.\\tnginx.enable = true;` "
                     f"the tab and the alignment spaces around the dots become part of the names and are written back verbatim")
+    # ---------------------------------------------------------------- R-C18-12
+    r12 = res.rule("R-C18-12", "the gap before a closing delimiter is built from the structural indent, never taken from the source: in "
+                   "a rebuild no `)` / `]` / `}` is preceded by the result of separator_from_layout(…), which prefers the column the "
+                   "closer had in the input (`layout.indent`)", floor=3)
+    for f in prog.all_functions():
+        if not (f.cls and f.name == "rebuild"):
+            continue
+        defs = {}
+        for d in walk_no_nested(f.node):
+            if isinstance(d, ast.Assign) and len(d.targets) == 1 and isinstance(d.targets[0], ast.Name):
+                defs.setdefault(d.targets[0].id, []).append(d.value)
+            elif isinstance(d, ast.AugAssign) and isinstance(d.target, ast.Name) and isinstance(d.op, ast.Add):
+                defs.setdefault(d.target.id, []).append(("+=", d.value))
+
+        def last_pieces(e, depth=0):
+            """expressions that may form the *end* of the string e"""
+            if depth > 4:
+                return []
+            if isinstance(e, ast.JoinedStr):
+                vals = [v.value if isinstance(v, ast.FormattedValue) else v for v in e.values]
+                return last_pieces(vals[-1], depth + 1) if vals else []
+            if isinstance(e, ast.BinOp) and isinstance(e.op, ast.Add):
+                return last_pieces(e.right, depth + 1)
+            if isinstance(e, ast.Name):
+                out = []
+                for d in defs.get(e.id, []):
+                    out += last_pieces(d[1] if isinstance(d, tuple) else d, depth + 1)
+                return out
+            if isinstance(e, ast.IfExp):
+                return last_pieces(e.body, depth + 1) + last_pieces(e.orelse, depth + 1)
+            return [e]
+
+        for n in walk_no_nested(f.node):
+            segs = _segments(n)
+            if not segs:
+                continue
+            for i, sg in enumerate(segs):
+                if isinstance(sg, ast.Constant) and isinstance(sg.value, str) and sg.value[:1] in (")", "]", "}") and i > 0:
+                    r12.instances += 1
+                    prev = last_pieces(segs[i - 1])
+                    bad = [x for x in prev if isinstance(x, ast.Call) and callee(x) in ("separator_from_layout", "separator_from_layout_with_comments")
+                           and not any(k.arg == "include_indent" and is_false(k.value) for k in x.keywords)]
+                    r12.ob(not bad, {"site": f.key, "closer": sg.value[:1]})
+                    for x in bad:
+                        res.add("R-C18-12", (f.key, "closing delimiter placed by a source-derived separator", sg.value[:1]), f.loc(x),
+                                f"{f.key}: the text before the closing `{sg.value[:1]}` ends with `{norm(x)[:60]}`, which uses the column recorded "
+                                f"from the input when there is one: after re-indenting a 4-space (or tab) source the `{sg.value[:1]}` stays at its "
+                                f"old column instead of the column of the line that opened it")
     res.assumptions = ["`;`/`:` attachment and exactly-one-space between tokens are value-level facts not decided here"]
     return res
+
+
+def is_false(e) -> bool:
+    return isinstance(e, ast.Constant) and e.value is False
 
 
 def _segments(n: ast.AST):
